@@ -3,8 +3,10 @@
 set -eu
 ROOT="$(cd "$(dirname "$0")" && pwd)"
 export CARGO_NET_OFFLINE=true
-mkdir -p /verif/.target "$ROOT/evidence" "$ROOT/replays"
+export CARGO_TARGET_DIR="$ROOT/.target"
+export VERIF_TARGET="$ROOT/.target"
+mkdir -p "$ROOT/.target" "$ROOT/evidence" "$ROOT/replays"
 cd "$ROOT/harness"
 cargo build --release --offline --workspace 2>&1 | tail -3
 # dependencies of the generated json! programs (C19), built once so that the check only compiles the programs
-/verif/.target/release/chk-macro --prebuild || true
+"$ROOT/.target/release/chk-macro" --prebuild || true
